@@ -225,7 +225,7 @@ func runH2(casesPath, tracePath string, from, nrand int) {
 	if len(blockA()) != 40 || len(blockB()) != 40 {
 		vh.Must(fmt.Errorf("header block pieces have %d and %d bytes", len(blockA()), len(blockB())), "h2 blocks")
 	}
-	tr := vh.NewTrace(tracePath)
+	tr := newFtrace(tracePath)
 	idx, ncalls := 0, 0
 	looped := false
 	vh.Must(vh.ReadCases(casesPath, func(raw json.RawMessage) error {
@@ -233,7 +233,7 @@ func runH2(casesPath, tracePath string, from, nrand int) {
 			return nil
 		}
 		idx++
-		if idx <= from {
+		if idx <= from || !selected(idx) {
 			return nil
 		}
 		var c h2case
@@ -243,6 +243,20 @@ func runH2(casesPath, tracePath string, from, nrand int) {
 		var stream []byte
 		ev := vh.Ev{"case": idx, "n": c.N}
 		var call func([]byte, string) h2run
+		if c.Kind == "seq" {
+			var qc seqCase
+			if err := json.Unmarshal(raw, &qc); err != nil {
+				return err
+			}
+			r := seqOnce(&qc)
+			ncalls++
+			tr.Emit(vh.Ev{"ev": "seq", "case": idx, "name": qc.Name, "target": qc.Target, "outs": r.Outs, "last": r.Last, "follow": r.Follow,
+				"steps": len(qc.Steps)})
+			if r.Last == "loop" || r.Follow == "loop" {
+				looped = true
+			}
+			return nil
+		}
 		if c.Kind == "slist" {
 			var sc slistCase
 			if err := json.Unmarshal(raw, &sc); err != nil {
@@ -332,13 +346,15 @@ func runH2(casesPath, tracePath string, from, nrand int) {
 		fmt.Printf("LOOP at case %d\n", idx)
 		os.Exit(exitLoop)
 	}
-	runRandH2(tr, nrand)
+	if onlyCase == 0 {
+		runRandH2(tr, nrand)
+	}
 	tr.Close()
 	fmt.Printf("h2 cases=%d calls=%d events=%d\n", idx, ncalls, tr.Len())
 }
 
 // runRandH2: random corruptions of valid frame sequences and random HPACK blocks; summary events.
-func runRandH2(tr *vh.Trace, nrand int) {
+func runRandH2(tr *ftrace, nrand int) {
 	rng := rand.New(rand.NewSource(vh.Seed()*104729 + 8))
 	valid := func() []byte {
 		k := rng.Intn(3)
@@ -400,6 +416,7 @@ func runRandH2(tr *vh.Trace, nrand int) {
 				stream := append(append([]byte{}, in...), valid()...)
 				n := len(in)
 				runs := []h2run{}
+				announce(map[string]string{"frame": "rand h2 ", "hpack": "rand hpack "}[target] + hex.EncodeToString(in))
 				for _, t := range []string{"tight", "cont", "ones"} {
 					var r h2run
 					if target == "frame" {
